@@ -2,14 +2,16 @@
 C10 — integer-domain functions agree with exact big-integer mathematics.
 Proved here for all arguments: fibonacci, factorial, one-bit and multi-bit shifts (`<<`, `>>`:
 `self * 2^n`, `self / 2^n` for every word-sized count), bitwise and/or/xor, the rounding
-decision of floor/ceil/round, the greedy roman-numeral decomposition.  Carried by
-correspondence + oracle only (stated in the evidence): nCr/nPr, mod, words, char/codepoint
-(their models are executable and diffed against the implementation on every run).
+decision of floor/ceil/round, the greedy roman-numeral decomposition, nCr / nPr / mod on natural-number
+arguments (binomial coefficient, falling factorial, remainder; the documented error exactly when r > n or
+the modulus is zero).  Carried by correspondence + oracle only (stated in the evidence): words,
+char/codepoint, and the argument-validation glue for non-natural arguments.
 -/
 import FendModel.Proofs.IntFns
 import FendModel.Proofs.BigUintShift
 import FendModel.Proofs.BigUintBitwise
 import FendModel.Proofs.BigUintShiftN
+import FendModel.Proofs.Combinatorics
 
 namespace Fend.C10
 open Fend Fend.BigUint
@@ -33,6 +35,26 @@ theorem shl_exact (a n : BigUint) (ha : a.WF) (hne : a.limbs ≠ []) (hf : n.fit
 /-- `a >> n` is `⌊a / 2^n⌋` (the loop's early exit at zero does not change the value) -/
 theorem shr_exact (a n : BigUint) (ha : a.WF) (hf : n.fitsU64 = true) :
     ∃ r, rshiftN a n = .ok r ∧ val r = val a / 2 ^ val n ∧ r.WF := rshiftN_val a n ha hf
+
+/-- `n nCr r` is the binomial coefficient; `outOfRange` exactly when r > n -/
+theorem nCr_exact (a b : BigUint) (ha : a.WF) (hb : b.WF) :
+    (val b ≤ val a → ∃ q, BigRat.combination (BigRat.ofUint a) (BigRat.ofUint b) = .ok q ∧
+        BigRat.valQ q = ((val a).choose (val b) : Nat)) ∧
+    (val a < val b → BigRat.combination (BigRat.ofUint a) (BigRat.ofUint b) = .error .outOfRange) :=
+  BigRat.combination_nat a b ha hb
+
+/-- `n nPr r` is n (n-1) ... (n-r+1); `outOfRange` exactly when r > n -/
+theorem nPr_exact (a b : BigUint) (ha : a.WF) (hb : b.WF) :
+    (val b ≤ val a → ∃ q, BigRat.permutation (BigRat.ofUint a) (BigRat.ofUint b) = .ok q ∧
+        BigRat.valQ q = ((val a).descFactorial (val b) : Nat)) ∧
+    (val a < val b → BigRat.permutation (BigRat.ofUint a) (BigRat.ofUint b) = .error .outOfRange) :=
+  BigRat.permutation_nat a b ha hb
+
+/-- `a mod b` is the remainder; `moduloByZero` exactly for b = 0 -/
+theorem mod_exact (a b : BigUint) (ha : a.WF) (hb : b.WF) :
+    (val b = 0 → BigRat.modulo (BigRat.ofUint a) (BigRat.ofUint b) = .error .moduloByZero) ∧
+    (val b ≠ 0 → ∃ r, BigRat.modulo (BigRat.ofUint a) (BigRat.ofUint b) = .ok ⟨false, r, .small 1⟩ ∧ val r = val a % val b) :=
+  BigRat.modulo_nat a b ha hb
 
 /-- bitwise `&`, `|`, `xor` on limb vectors of any two lengths are the bitwise operations on the values -/
 theorem and_exact (a b r : BigUint) (ha : a.WF) (hb : b.WF) (h : bitwiseAnd a b = .ok r) : val r = val a &&& val b := and_val a b r ha hb h
